@@ -358,6 +358,18 @@ func c20RunR4(c *Ctx, tbls []*c20TypeTable) {
 						}
 					}
 				}
+				var forbidden []string
+				if isSubnet {
+					// CIDR membership of host h in a/n depends on h's address, a and n — never
+					// on a prefix length carried by the host operand itself
+					if at := operandType(fn.Params[0].Type()); at != nil {
+						for _, f := range at.prefix {
+							if deps[c20Dep{0, f}] {
+								forbidden = append(forbidden, fn.Params[0].Name()+"."+f.Name())
+							}
+						}
+					}
+				}
 				var have []string
 				for dep := range deps {
 					fnm := "*"
@@ -378,6 +390,10 @@ func c20RunR4(c *Ctx, tbls []*c20TypeTable) {
 						why = "membership in a/n differs between two prefix lengths n for the same pair of addresses, so a test that never reads it cannot agree with CIDR semantics"
 					}
 					r.Fail(c20RDep, name, p.Rel(fn.Pos()), fmt.Sprintf("the result does not depend on %s (it depends on {%s}): %s", strings.Join(missing, "; "), strings.Join(have, ","), why))
+					return
+				}
+				if len(forbidden) > 0 {
+					r.Fail(c20RDep, name, p.Rel(fn.Pos()), fmt.Sprintf("the result depends on the host operand's own prefix length %s (it depends on {%s}): whether h lies in a/n is a function of h's address, a and n only, so two hosts with the same address and different prefix lengths must get the same answer", strings.Join(forbidden, ","), strings.Join(have, ",")))
 					return
 				}
 				r.OK(c20RDep, name, p.Rel(fn.Pos()), "the result depends on {"+strings.Join(have, ",")+"}")
